@@ -6,6 +6,10 @@ package main
 
 import (
 	"fmt"
+	"os"
+	"path/filepath"
+	"regexp"
+	"strconv"
 	"strings"
 
 	"verifharness/common"
@@ -515,6 +519,24 @@ func runC20(ctx *common.Ctx) error {
 			return err
 		}
 	}
+	// one recovered message loses its cache file, restart: the hash map is rebuilt from the readable ones, so a repeated
+	// rejected APPEND of an INTACT recovered message is still recognised (oracle only: the damaged message cannot be fetched)
+	{
+		id++
+		cs := &c20Case{ID: id}
+		canon := "recovered-twice [append(INBOX,L0,fail); append(INBOX,L1,fail); cache file of the first recovered message deleted; restart; append(INBOX,L1,fail)]"
+		ctx.Current(canon, cs)
+		detail, err := lostCacheFile()
+		if err != nil {
+			return fmt.Errorf("lost cache file: %w", err)
+		}
+		res.Evaluations++
+		res.Count("scenario:lost-cache-file")
+		res.Nontrivial("lost-cache-file")
+		if detail != "" {
+			res.Fail(canon, detail, cs)
+		}
+	}
 	// ---- random histories ----
 	for ci := 0; ci < ncases; ci++ {
 		id++
@@ -547,4 +569,89 @@ func runC20(ctx *common.Ctx) error {
 		return fmt.Errorf("the literal table disagrees with rfc822.GetMessageHash (%v) but no history showed a violation", tableErr)
 	}
 	return mstore.WriteCases(ctx.Out, "Run.RunC20", lines, nil)
+}
+
+var reMessages = regexp.MustCompile(`MESSAGES (\d+)`)
+
+func lostCacheFile() (string, error) {
+	lits := newLits()
+	w, err := mstore.NewWorld(mstore.Config{Burn: 20, BurnStep: 60}, lits)
+	if err != nil {
+		return "", err
+	}
+	defer w.Close()
+	storeDir := filepath.Join(w.Dir, "store", "user-0")
+	list := func() (map[string]bool, error) {
+		es, err := os.ReadDir(storeDir)
+		if err != nil {
+			return nil, err
+		}
+		m := map[string]bool{}
+		for _, e := range es {
+			if !e.IsDir() {
+				m[e.Name()] = true
+			}
+		}
+		return m, nil
+	}
+	reject := func(lit int) (mstore.Obs, error) {
+		return w.Do(mstore.Op{Kind: "append", Name: "INBOX", Lit: lit, Remote: "fail"})
+	}
+	count := func() (int, error) {
+		r, err := w.Probe.Cmd(`STATUS "` + mstore.RecoveryName + `" (MESSAGES)`)
+		if err != nil || r.Status != "OK" {
+			return 0, fmt.Errorf("STATUS: %v %s", err, r.Text)
+		}
+		for _, l := range r.Untagged {
+			if m := reMessages.FindStringSubmatch(l.Text); m != nil {
+				n, _ := strconv.Atoi(m[1])
+				return n, nil
+			}
+		}
+		return 0, fmt.Errorf("STATUS: no MESSAGES item")
+	}
+	before, err := list()
+	if err != nil {
+		return "", err
+	}
+	if _, err := reject(0); err != nil {
+		return "", err
+	}
+	mid, err := list()
+	if err != nil {
+		return "", err
+	}
+	var first []string
+	for f := range mid {
+		if !before[f] {
+			first = append(first, f)
+		}
+	}
+	if len(first) != 1 {
+		return "", fmt.Errorf("expected one new cache file after the first rejected APPEND, found %v", first)
+	}
+	if _, err := reject(1); err != nil {
+		return "", err
+	}
+	if n, err := count(); err != nil || n != 2 {
+		return "", fmt.Errorf("recovery mailbox holds %d messages before the restart (%v)", n, err)
+	}
+	if err := os.Remove(filepath.Join(storeDir, first[0])); err != nil {
+		return "", err
+	}
+	if err := w.Restart(); err != nil {
+		return "", err
+	}
+	ob, err := reject(1)
+	if err != nil {
+		return "", err
+	}
+	n, err := count()
+	if err != nil {
+		return "", err
+	}
+	if n != 2 {
+		return fmt.Sprintf("after the restart the rejected APPEND of the intact recovered message was answered %q and the recovery mailbox holds %d messages (2 expected: it is there already)", ob.Class+" "+ob.Text, n), nil
+	}
+	return "", nil
 }
